@@ -349,7 +349,7 @@ class Flow:
         key = (local, projs, rds)
         if key in self._memo:
             return self._memo[key]
-        if key in stack or len(stack) > 400:
+        if key in stack or len(stack) > 150:
             self._cuts += 1
             return frozenset()
         stack = stack + (key,)
